@@ -3,12 +3,15 @@ package props
 import (
 	"fmt"
 	"reflect"
+	"strings"
 	"sync"
 
 	"github.com/AsaiYusuke/jsonpath"
 	"pgregory.net/rapid"
 
 	"verif/harness/gen"
+	"verif/harness/pegi"
+	"verif/harness/spec"
 )
 
 const ruleC06 = "scenarios drawn by rapid and executed under the race detector (shards run with GOMAXPROCS 2/4/16): a corpus of ~170 paths covering every node and comparator kind (accepted sentences of the reduced grammar + generated filter-heavy paths), 6 shared read-only documents, 3 configs; 2..16 goroutines, each running a derived program of 20..200 operations: Parse(path, config) then call; call a SHARED pre-parsed function on a shared document; Retrieve. No synchronisation between workers after the start barrier. " +
@@ -22,10 +25,27 @@ var c06Docs = []string{
 	`{"a":{"a":{"a":{"a":1}}},"b":[[[1]]]}`,
 	`[]`,
 	`{"list":[{"id":1,"v":1},{"id":2,"v":"1"},{"id":3},{"id":4,"v":[1]}],"x":1,"y":"a"}`,
+	`{"list":[{"id":5,"v":2},{"id":6,"v":1},{"id":7,"v":"a"}],"x":2,"y":"b","a":3,"d":"y"}`,
+	longArrayDoc(150),
+	longArrayDoc(90),
+}
+
+func longArrayDoc(n int) string {
+	var sb strings.Builder
+	sb.WriteString("[")
+	for i := 0; i < n; i++ {
+		if i > 0 {
+			sb.WriteString(",")
+		}
+		fmt.Fprintf(&sb, `{"a":%d,"b":%d}`, i, i%7)
+	}
+	sb.WriteString("]")
+	return sb.String()
 }
 
 var c06Once sync.Once
 var c06Corpus []string
+var c06ASTs []*gen.Path // the corpus paths converted by PEGI + tree2ast (nil when not convertible)
 
 func c06Paths() []string {
 	c06Once.Do(func() {
@@ -38,6 +58,13 @@ func c06Paths() []string {
 			if _, err := jsonpath.Parse(p, cfg); err == nil {
 				seen[p] = true
 				c06Corpus = append(c06Corpus, p)
+				var ast *gen.Path
+				if g, gerr := theGrammar(); gerr == nil {
+					if v := g.Parse(p); v.Accepted {
+						ast, _ = pegi.ToAST(v.Tree, v.Runes, pegi.CatalogueFuncs)
+					}
+				}
+				c06ASTs = append(c06ASTs, ast)
 			}
 		}
 		sentences := gen.ReducedSentences()
@@ -53,6 +80,7 @@ func c06Paths() []string {
 			"$[?(1 == 2)]", "$[?(1 == 1)]", "$[?(1 < 2)]", "$[?($.a == 1)]", "$[?($.d == 'x')]", "$[?(@.a == $.a)]", "$[?(@.b != $.b)]", "$[?(@.a == 1 && @.b == 2)]", "$[?(@.a == 1 || @.b == 1)]",
 			"$[?(@.a == 'x' || !@.b)]", "$.c[?(@.a == 1)].b", "$..[?(@.a)]", "$..[?(@.a == 1)]", "$.list[?(@.v == 1)].id", "$.list[?(@.v == $.x)]", "$.list[?(@.v == '1')]", "$.list[?(@.v)]", "$.list[?(!@.v)].id",
 			"$.a.f1()", "$.*.f1()", "$.a.g1()", "$.*.g2()", "$[?(@.a.f2() == 2)]", "$[?(@.*.g1() > 1)]", "$.c[*].a.f2().f1()", "$..a.g1()", "$.b.c[?(@ > 1)]", "$.b.c[?(@ == 2 || @ == 3)]",
+			"$[*,0]", "$[1,*]", "$[*,*]", "$[*,0].a", "$[0,*,-1].b", "$[?(@.a > 100)].b", "$[-3:].a", "$[::-20].a", "$[?(@.b == $[3].b)].a", "$.list[?(@.v == $.x)].id", "$.list[?(@.v != $.x)].id", "$..[?(@.v == $.x)]", "$[?($.a == 3)]", "$[?($.d == 'y')]",
 			"$[?(@ == null)]", "$[?(@ == true)]", "$[?(@ == 's')]", "$[?(@ =~ /^s$/)]", "$[?(@[0] == 1)]", "$[?(@.b.a)]", "$[4][2][0]", "$[4][0:2]", "$..[0]", "$..['a','c']", "$..[*]",
 		} {
 			add(s)
@@ -136,37 +164,48 @@ func checkC06(c *Case, st *Stats) string {
 			programs[g] = append(programs[g], op)
 		}
 	}
-	// sequential expectations, computed before any goroutine starts. The shared functions are
-	// NOT used here: their first calls must happen concurrently (a parsed tree that is edited by
-	// its first evaluation races only then), so the expectation uses privately parsed twins.
-	expect := map[[3]int]string{}
-	twins := make([]func(interface{}) ([]interface{}, error), len(shared))
-	for i, sf := range shared {
-		cfg, _ := c06Config(sf.cfg)
-		twins[i], _ = jsonpath.Parse(paths[sf.path], cfg)
+	// Expectations come from SPEC, computed before any goroutine starts and WITHOUT evaluating
+	// anything with the library: the concurrent phase must meet the library's evaluation state
+	// (parsed trees, pools, any package-level table) cold, because state that is built on first
+	// use races only then. "What the call returns when run alone" is SPEC's answer (C01); the
+	// same operations are also run alone with the library after the concurrent phase.
+	summarize := func(got []interface{}, err error) string {
+		if err != nil {
+			if !DescribeErr(err).IsRuntime() {
+				return "UNDOCUMENTED " + err.Error()
+			}
+			return "ERR"
+		}
+		plain := make([]interface{}, len(got))
+		for i, v := range got {
+			if a, ok := v.(jsonpath.Accessor); ok {
+				plain[i] = a.Get()
+			} else {
+				plain[i] = v
+			}
+		}
+		return JSONString(plain)
 	}
-	useTwins := true
-	run := func(op c06Op) string {
+	run := func(op c06Op) ([]interface{}, error) {
 		switch op.kind {
 		case 1:
-			f := shared[op.fn].f
-			if useTwins {
-				f = twins[op.fn]
-			}
-			got, err := f(docs[op.doc])
-			return c06Outcome(got, err)
+			return shared[op.fn].f(docs[op.doc])
 		case 0:
 			cfg, _ := c06Config(op.cfg)
 			f, err := jsonpath.Parse(paths[op.path], cfg)
 			if err != nil {
-				return "parse: " + err.Error()
+				return nil, err
 			}
-			got, err := f(docs[op.doc])
-			return c06Outcome(got, err)
+			return f(docs[op.doc])
 		}
 		cfg, _ := c06Config(op.cfg)
-		got, err := jsonpath.Retrieve(paths[op.path], docs[op.doc], cfg)
-		return c06Outcome(got, err)
+		return jsonpath.Retrieve(paths[op.path], docs[op.doc], cfg)
+	}
+	pathOf := func(op c06Op) int {
+		if op.kind == 1 {
+			return shared[op.fn].path
+		}
+		return op.path
 	}
 	key := func(op c06Op) [3]int {
 		if op.kind == 1 {
@@ -174,17 +213,29 @@ func checkC06(c *Case, st *Stats) string {
 		}
 		return [3]int{op.path, op.cfg, op.doc}
 	}
+	expect := map[[3]int]string{}
 	for _, prog := range programs {
 		for _, op := range prog {
 			k := key(op)
-			if _, ok := expect[k]; !ok {
-				expect[k] = run(op)
+			if _, ok := expect[k]; ok {
+				continue
+			}
+			expect[k] = "" // not comparable with SPEC
+			if ast := c06ASTs[pathOf(op)]; ast != nil {
+				res := spec.Eval(ast, docs[op.doc], gen.PureFuncs{})
+				switch {
+				case res.Unspecified:
+				case len(res.Nodes) == 0:
+					expect[k] = "ERR"
+				default:
+					expect[k] = JSONString(res.Values())
+				}
 			}
 		}
 	}
 	// concurrent run
-	useTwins = false
 	mismatches := make([]string, ng)
+	concurrent := make([]map[[3]int]string, ng)
 	var wg sync.WaitGroup
 	start := make(chan struct{})
 	for g := range programs {
@@ -193,11 +244,21 @@ func checkC06(c *Case, st *Stats) string {
 		go func() {
 			defer wg.Done()
 			<-start
+			seen := map[[3]int]string{}
 			for i, op := range programs[g] {
-				if got := run(op); got != expect[key(op)] && mismatches[g] == "" {
-					mismatches[g] = fmt.Sprintf("goroutine %d operation %d (kind %d, path %q, config %d, document %d): concurrent result %s, alone %s", g, i, op.kind, paths[op.path], op.cfg, op.doc, got, expect[key(op)])
+				got, err := run(op)
+				sum := summarize(got, err)
+				full := c06Outcome(got, err)
+				k := key(op)
+				if want := expect[k]; want != "" && sum != want && mismatches[g] == "" {
+					mismatches[g] = fmt.Sprintf("goroutine %d operation %d (kind %d, path %q, config %d, document %d): concurrent result %s, alone (SPEC) %s", g, i, op.kind, paths[pathOf(op)], op.cfg, op.doc, sum, want)
 				}
+				if prev, ok := seen[k]; ok && prev != full && mismatches[g] == "" {
+					mismatches[g] = fmt.Sprintf("goroutine %d operation %d (path %q, document %d): two evaluations of the same call differ: %s vs %s", g, i, paths[pathOf(op)], op.doc, prev, full)
+				}
+				seen[k] = full
 			}
+			concurrent[g] = seen
 		}()
 	}
 	close(start)
@@ -211,6 +272,20 @@ func checkC06(c *Case, st *Stats) string {
 	for i := range docs {
 		if d := snaps[i].diff(docs[i]); d != "" {
 			return fmt.Sprintf("shared document %d was modified: %s", i, d)
+		}
+	}
+	// the same calls, alone, afterwards: same (result, error text) as during the concurrent phase
+	alone := map[[3]int]string{}
+	for g, prog := range programs {
+		for _, op := range prog {
+			k := key(op)
+			if _, ok := alone[k]; !ok {
+				got, err := run(op)
+				alone[k] = c06Outcome(got, err)
+			}
+			if c, ok := concurrent[g][k]; ok && c != alone[k] {
+				return fmt.Sprintf("path %q on document %d: concurrent outcome %s, alone afterwards %s", paths[pathOf(op)], op.doc, c, alone[k])
+			}
 		}
 	}
 	// non-triviality
